@@ -1,10 +1,10 @@
 /-
   C05 — Compaction and checkpoint are invisible.
   Statements only (helper lemmas: Nervus.Proofs.{CsrForward,CsrReverse,CsrIncoming,EngineCompact,
-  EngineCompactProps}).  Model: Nervus.Model.{Csr,Engine} (`compact` = Db::compact = Db::checkpoint:
+  EngineCompactProps,EngineCompactMap,PublishRun,CompactHist}).  Model: Nervus.Model.{Csr,Engine} (`compact` = Db::compact = Db::checkpoint:
   build_segment_from_runs, CsrSegment::persist, property sinking, manifest + checkpoint, runs cleared).
 -/
-import Nervus.Proofs.EngineCompactMap
+import Nervus.Proofs.CompactHist
 namespace Nervus.Props.C05
 open Nervus Nervus.Storage
 open Nervus.GraphSpec (TxOp Op)
@@ -12,10 +12,13 @@ open Nervus.GraphSpec (TxOp Op)
 /-- the two C05 fixes are present in the source (regenerated table entries) -/
 theorem csr_guard_present : Cfg.current.csrGuard = true := by decide
 theorem compact_own_tombstones_last : Cfg.current.compactOwnLast = true := by decide
+/-- the whole-map fix is present: `extend_*_properties_from_store` keep the newest store entry of a key -/
+theorem whole_map_keeps_newest : Generated.extendKeepsNewest = true := by decide
 
 /-- **C05 at full strength**: inserting a compaction anywhere in a history changes no later read.
     NOT provable on this tree: compaction clears the runs and with them every tombstone and every
-    property removal (see the counterexamples). -/
+    property removal (see the counterexamples; the fourth mechanism, whole-map reads returning the oldest
+    sunk value, is fixed). -/
 def C05_full : Prop :=
   ∀ (h₁ h₂ : List Op) (s s' : Engine),
     Storage.run Cfg.current (h₁ ++ [.compact] ++ h₂) = .ok s → Storage.run Cfg.current (h₁ ++ h₂) = .ok s' →
@@ -24,18 +27,18 @@ def C05_full : Prop :=
     (∀ n k, s.nodeProp n k = s'.nodeProp n k) ∧ (∀ n k, (s.nodeProps n).lookup k = (s'.nodeProps n).lookup k) ∧
     (∀ e k, s.edgeProp e k = s'.edgeProp e k)
 
-/-- the engine state a compaction may start from without losing anything: the runs hold no node or
-    edge tombstone and no property removal (the store is empty while there is no root) -/
-def compactSafe (s : Engine) : Bool :=
-  s.runs.all (fun r => r.tombNodes.isEmpty && r.tombEdges.isEmpty && r.nDel.isEmpty && r.eDel.isEmpty) &&
-  (s.propsRoot != 0 || s.store.isEmpty)
+/-! `compactSafe c s` (Proofs/EngineCompactE, decidable): the runs of `s` hold no node tombstone and no
+    property removal; no relationship tombstoned by a run is held by an older segment (`segsClear`: the
+    tombstones of relationships that live in the runs themselves are fine — build_segment_from_runs
+    applies them exactly like the read path, fix 0624086); the store is empty while there is no root. -/
 
 /-- **C05 (proved part, state level)**: from EVERY engine state that is `compactSafe` — any number of
-    runs with any edges (parallel, self loops, none at all) and any properties, any older segments,
-    any store — `compact` changes neither node enumeration, nor outgoing / incoming neighbours with
-    any type filter (as multisets; a panicking older segment panics before and after), nor any
-    single-key node / relationship property read, nor labels, external ids or external-id lookup. -/
-theorem C05_partial (s : Engine) (hs : compactSafe s = true) :
+    runs with any edges (parallel, self loops, none at all), any properties, edge tombstones that hit
+    only run-resident relationships, any older segments, any store — `compact` changes neither node
+    enumeration, nor outgoing / incoming neighbours with any type filter (as multisets; a panicking older
+    segment panics before and after), nor any single-key node / relationship property read, nor labels,
+    external ids or external-id lookup. -/
+theorem C05_partial (s : Engine) (hs : compactSafe Cfg.current s = true) :
     let s' := s.compact Cfg.current
     s'.nodes = s.nodes ∧ s'.nodesSnap = s.nodesSnap ∧
     (∀ n rel, PermOpt (s'.neighbors n rel) (s.neighbors n rel)) ∧
@@ -43,44 +46,77 @@ theorem C05_partial (s : Engine) (hs : compactSafe s = true) :
     (∀ n k, s'.nodeProp n k = s.nodeProp n k) ∧ (∀ e k, s'.edgeProp e k = s.edgeProp e k) ∧
     s'.nodeLabels = s.nodeLabels ∧ s'.resolveExternal = s.resolveExternal ∧
     s'.lookupInternal = s.lookupInternal ∧ s'.interner = s.interner := by
-  simp only [compactSafe, Bool.and_eq_true, List.all_eq_true, List.isEmpty_iff, Bool.or_eq_true,
-    bne_iff_ne, ne_eq] at hs
-  obtain ⟨hruns, hroot⟩ := hs
-  have hnt : NoTombs s.runs := fun r hr => ⟨(hruns r hr).1.1.1, (hruns r hr).1.1.2⟩
-  have hnd : ∀ r ∈ s.runs, r.nDel = [] := fun r hr => (hruns r hr).1.2
-  have hed : ∀ r ∈ s.runs, r.eDel = [] := fun r hr => (hruns r hr).2
-  have hroot' : s.propsRoot = 0 → s.store = [] := by
-    intro h0; rcases hroot with h | h
-    · exact absurd h0 h
-    · exact h
+  obtain ⟨hnt, hnd, hed, hroot', hclear⟩ := compactSafe_unpack _ s hs
   have hid : (s.compact Cfg.current).idmap = s.idmap ∧ (s.compact Cfg.current).interner = s.interner := by
     unfold Engine.compact; split <;> exact ⟨rfl, rfl⟩
-  refine ⟨(compact_nodes _ s hnt).1, (compact_nodes _ s hnt).2, compact_neighbors _ s hnt,
-    compact_incoming _ s hnt (Or.inl csr_guard_present), compact_nodeProp _ s hnd hroot',
-    compact_edgeProp _ s hed hroot', ?_, ?_, ?_, hid.2⟩
+  refine ⟨(compact_nodes_E _ s hnt).1, (compact_nodes_E _ s hnt).2,
+    compact_neighbors_E _ s hnt compact_own_tombstones_last (segsClear_out hclear),
+    compact_incoming_E _ s hnt compact_own_tombstones_last csr_guard_present (segsClear_in hclear),
+    compact_nodeProp _ s hnd hroot', compact_edgeProp _ s hed hroot', ?_, ?_, ?_, hid.2⟩
   · funext n; unfold Engine.nodeLabels; rw [hid.1]
   · funext n; unfold Engine.resolveExternal; rw [hid.1]
   · funext x; unfold Engine.lookupInternal; rw [hid.1]
 
-/-- no node property key held by a run is already in the store (no key is sunk twice) -/
-def freshNodeKeys (s : Engine) : Bool :=
-  s.runs.all (fun r => r.nprops.all (fun p => (lastNode s.store p.1.1 p.1.2).isNone))
+/-- **whole-map reads = single-key reads, in EVERY engine state** (any runs, segments, store):
+    `node_properties(n)` / `edge_properties(e)` hold for every key exactly what `node_property(n, k)` /
+    `edge_property(e, k)` answer.  (Pinned tree: false for a key with two store entries — the finding
+    `C05-whole-map-read-returns-oldest-sunk-value`, fixed.) -/
+theorem whole_map_eq_single_key (s : Engine) :
+    (∀ n k, (s.nodeProps n).lookup k = s.nodeProp n k) ∧ (∀ e k, (s.edgeProps e).lookup k = s.edgeProp e k) :=
+  ⟨nodeProps_lookup s, edgeProps_lookup s⟩
 
-/-- **C05 (proved part, whole-map read)**: from every `compactSafe` state in which no node property
-    key of the runs is already in the store, `node_properties` (the whole map) answers the same value
-    for every key before and after `compact` — the complement of the finding
-    `C05-whole-map-read-returns-oldest-sunk-value`.  (Relationship maps: same mechanism, not proved.) -/
-theorem C05_partial_whole_map (s : Engine) (hs : compactSafe s = true) (hf : freshNodeKeys s = true) (n k : Nat) :
-    ((s.compact Cfg.current).nodeProps n).lookup k = (s.nodeProps n).lookup k := by
-  simp only [compactSafe, Bool.and_eq_true, List.all_eq_true, List.isEmpty_iff, Bool.or_eq_true,
-    bne_iff_ne, ne_eq] at hs
-  simp only [freshNodeKeys, List.all_eq_true, Option.isNone_iff_eq_none] at hf
-  obtain ⟨hruns, hroot⟩ := hs
-  exact compact_nodeProps _ s (fun r hr => (hruns r hr).1.2)
-    (by intro h0; rcases hroot with h | h
-        · exact absurd h0 h
-        · exact h)
-    hf n k
+/-- **C05 (proved part, whole-map reads)**: from every `compactSafe` state `node_properties` and
+    `edge_properties` (the whole maps) answer the same value for every key before and after `compact`. -/
+theorem C05_partial_whole_map (s : Engine) (hs : compactSafe Cfg.current s = true) :
+    (∀ n k, ((s.compact Cfg.current).nodeProps n).lookup k = (s.nodeProps n).lookup k) ∧
+    (∀ e k, ((s.compact Cfg.current).edgeProps e).lookup k = (s.edgeProps e).lookup k) := by
+  obtain ⟨_, hnd, hed, hroot, _⟩ := compactSafe_unpack _ s hs
+  exact ⟨compact_nodeProps _ s hnd hroot, compact_edgeProps _ s hed hroot⟩
+
+/-! ### history level: compactions at arbitrary positions
+
+    `compactHistSafe c s h` (Proofs/CompactHist, decidable — it runs the model): `h` consists of
+    transactions (committed or dropped) and compactions; every compaction starts from a state that is
+    `compactSafe`; after every transaction no published property removal sits over a value in the store
+    (`removalsClear`).  `dropCompactions h` = `h` without its `.compact` entries. -/
+
+/-- every read interface answers alike: node enumeration (both kinds), tombstone test, neighbours in
+    both directions with any type filter (as multisets; a panic on one side is a panic on the other),
+    single-key node / relationship properties, `node_properties` / `edge_properties` key by key, labels
+    (ids and names),
+    external ids, external-id lookup, interned names, vector search -/
+def SameReads (s u : Engine) : Prop :=
+  s.nodes = u.nodes ∧ s.nodesSnap = u.nodesSnap ∧ s.isTombstoned = u.isTombstoned ∧
+  (∀ n rel, PermOpt (s.neighbors n rel) (u.neighbors n rel)) ∧
+  (∀ n rel, PermOpt (s.incoming Cfg.current n rel) (u.incoming Cfg.current n rel)) ∧
+  (∀ n k, s.nodeProp n k = u.nodeProp n k) ∧ (∀ e k, s.edgeProp e k = u.edgeProp e k) ∧
+  (∀ n k, (s.nodeProps n).lookup k = (u.nodeProps n).lookup k) ∧
+  (∀ e k, (s.edgeProps e).lookup k = (u.edgeProps e).lookup k) ∧
+  s.nodeLabels = u.nodeLabels ∧ s.nodeLabelNames = u.nodeLabelNames ∧ s.resolveExternal = u.resolveExternal ∧
+  s.lookupInternal = u.lookupInternal ∧ s.interner = u.interner ∧ s.vecNodes = u.vecNodes
+
+/-- **C05 (proved part, history level)**: for EVERY history of transactions and compactions that is
+    `compactHistSafe` — any number of compactions at any positions — the engine answers every read
+    exactly as the engine that ran the same history WITHOUT any of the compactions. -/
+theorem C05_partial_hist (h : List Op) (hs : compactHistSafe Cfg.current {} h = true) :
+    ∃ s u, Storage.run Cfg.current h = .ok s ∧ Storage.run Cfg.current (dropCompactions h) = .ok u ∧
+      SameReads s u := by
+  obtain ⟨s, u, h1, h2, hE⟩ := hist_eqv Cfg.current csr_guard_present compact_own_tombstones_last h {} {} (Eqv.refl _ _) rfl hs
+  exact ⟨s, u, h1, h2, hE.reads⟩
+
+/-- **C05 in the shape of `C05_full`**: inserting one compaction anywhere in a history changes no later
+    read, when both histories are `compactHistSafe` (either may hold further compactions). -/
+theorem C05_partial_insert (h₁ h₂ : List Op)
+    (hs : compactHistSafe Cfg.current {} (h₁ ++ [.compact] ++ h₂) = true)
+    (hs' : compactHistSafe Cfg.current {} (h₁ ++ h₂) = true) :
+    ∃ s s', Storage.run Cfg.current (h₁ ++ [.compact] ++ h₂) = .ok s ∧
+      Storage.run Cfg.current (h₁ ++ h₂) = .ok s' ∧ SameReads s s' := by
+  obtain ⟨s, u, h1, h2, hE⟩ := hist_eqv Cfg.current csr_guard_present compact_own_tombstones_last _ {} {} (Eqv.refl _ _) rfl hs
+  obtain ⟨s', u', h1', h2', hE'⟩ := hist_eqv Cfg.current csr_guard_present compact_own_tombstones_last _ {} {} (Eqv.refl _ _) rfl hs'
+  rw [dropCompactions_insert] at h2
+  have : u = u' := by rw [h2] at h2'; cases h2'; rfl
+  subst this
+  exact ⟨s, s', h1, h1', (hE.trans hE'.symm).reads⟩
 
 /-- **CSR construction lemma** (shared with C30): for EVERY edge list, the built and persisted
     segment answers `neighbors` / `incoming_neighbors` with exactly the edges of that source /
@@ -107,8 +143,17 @@ def hSafe : List Op :=
     .tx [.edge 0 R 1, .edge 0 R 1, .edge 1 R 1, .nprop 1 K 2] true,
     .tx [.nprop 1 K 3, .eprop 0 R 1 K 4] true ]
 
-example : ∃ s, Storage.run Cfg.current hSafe = .ok s ∧ compactSafe s = true ∧ s.runs.length = 2 ∧
+example : ∃ s, Storage.run Cfg.current hSafe = .ok s ∧ compactSafe Cfg.current s = true ∧ s.runs.length = 2 ∧
     s.segs.length = 1 := ⟨_, rfl, by decide, by decide, by decide⟩
+
+/-- non-vacuity of the history-level statements: two compactions, transactions between and after -/
+def hSafe2 : List Op := hSafe ++ [ .compact, .tx [.node 12 none, .edge 2 R 0, .nprop 2 K 7] true,
+  .tx [.tombEdge 2 R 0, .edge 2 R 0, .edge 2 R 1] true, .tx [.tombEdge 2 R 1] true, .compact,
+  .tx [.edge 0 R 2] true ]
+
+example : compactHistSafe Cfg.current {} hSafe2 = true := by decide
+example : compactHistSafe Cfg.current {} (dropCompactions hSafe2) = true := by decide
+example : (dropCompactions hSafe2).length + 3 = hSafe2.length := by decide
 
 /-! ### counterexamples on the CURRENT tree (known findings; witnesses in corpus/engine_compact/) -/
 
@@ -143,17 +188,21 @@ theorem C05_counterexample_property_removal :
     StorageTriggers.c05TriggerList Cfg.current (hPropRemoval true) = ["C05-compact-drops-property-removal"] :=
   ⟨⟨_, rfl, by decide⟩, ⟨_, rfl, by decide, by decide⟩, by decide⟩
 
-/-- a value overwritten across two compactions: the single-key read returns the new value, the
-    whole-map read the OLD one (the scan keeps the last = oldest duplicate of the key) -/
+/-! ### the three defects of the pinned tree that are fixed (witnesses stay in the corpus) -/
+
+/-- a value overwritten across two compactions: the single-key read returns the new value; the pinned
+    insertion loop of the whole-map read (`props.insert`, `extendWith false`) returned the OLD one (the scan
+    kept the last = oldest duplicate of the key), the current one (`or_insert`) returns the new one; fixed
+    by c7ee0a6 -/
 def hOverwrite : List Op :=
   [ .tx [.node 10 (some A), .nprop 0 K 1] true, .compact, .tx [.nprop 0 K 2] true, .compact ]
 
 theorem C05_counterexample_whole_map_oldest :
-    (∃ s, Storage.run Cfg.current hOverwrite = .ok s ∧ s.nodeProp 0 K = some 2 ∧ s.nodeProps 0 = [(K, 1)]) ∧
-    StorageTriggers.c05TriggerList Cfg.current hOverwrite = ["C05-whole-map-read-returns-oldest-sunk-value"] :=
-  ⟨⟨_, rfl, by decide, by decide⟩, by decide⟩
+    (∃ s, Storage.run Cfg.current hOverwrite = .ok s ∧ s.nodeProp 0 K = some 2 ∧
+      Store.extendWith false (s.store.fetchNode 0 []) [] = [(K, 1)] ∧ s.nodeProps 0 = [(K, 2)]) ∧
+    StorageTriggers.c05TriggerList Cfg.current hOverwrite = [] :=
+  ⟨⟨_, rfl, by decide, by decide, by decide⟩, by decide⟩
 
-/-! ### the two defects of the pinned tree that are fixed (witnesses stay in the corpus) -/
 
 /-- pinned tree: an edge-free compaction yields a segment without reverse offsets and
     `incoming_neighbors(0)` panics (csr.rs:67); fixed by f429866 -/
